@@ -284,7 +284,8 @@ class FakeCS:
 
 
 class FakeTherm:
-    """what computeHomogenizationFunction / _computeSingleMobility use of GeneralThermodynamics"""
+    """what computeHomogenizationFunction / _computeSingleMobility use of GeneralThermodynamics.
+    A point of the script is a (composition, temperature) pair; two points may share the composition."""
     def __init__(self, c):
         self.elements = list(c['elements']) + ['VA']
         self.numElements = len(c['elements'])
@@ -298,26 +299,53 @@ class FakeTherm:
                 self.mobCallables[ph] = None
         self.mobility_correction = None
         self.points = c['points']
+        self.index = {(pt_xi(c, k), float(pt_T(c, k))): k for k in range(len(c['points']))}
         self.calls = 0
 
     def getEq(self, x, T, gExtra, phases):
         self.calls += 1
-        k = int(round(float(np.atleast_1d(x)[0]) * 100)) - 1
+        xi = int(round(float(np.atleast_1d(x)[0]) * 100)) - 1
+        k = self.index[(xi, float(T))]
         pt = self.points[k]
         css = []
         for s in pt['stable']:
             X = [s['X'][el] for el in self.srt]
             raw = [s['raw'][el] for el in self.srt] if s['raw'] is not None else None
             css.append(FakeCS(s['name'], s['NP'], X, raw, self.srt))
-        mu = np.array([[[-1000.0 * (i + 1) for i in range(len(self.srt))]]])
+        mu = np.array([[fake_mu(xi, T, len(self.srt))]])
         return NS(eq=NS(MU=mu), get_composition_sets=lambda: css)
+
+
+def fake_mu(xi, T, e):
+    return [-1000.0 * (i + 1) - float(T) - 7.0 * xi for i in range(e)]
+
+
+def pt_xi(c, k):
+    """composition index of point k (scripted backend); files written before points carried a
+    temperature have one composition per point"""
+    return int(c['points'][k].get('xi', k))
+
+
+def pt_T(c, k):
+    if c['part'] == 'C':
+        return float(c['Ts'][k]) if 'Ts' in c else float(c['T'])
+    return float(c['points'][k].get('T', 1000.0))
 
 
 def point_x(c, k):
     if c['part'] == 'C':
         return list(c['xs'][k])
     e = len(c['elements'])
-    return [0.01 * (k + 1)] + [0.1] * (e - 2)
+    return [0.01 * (pt_xi(c, k) + 1)] + [0.1] * (e - 2)
+
+
+def step_points(st):
+    """a step evaluates one point ('point') or an array of points ('points')"""
+    return list(st['points']) if 'points' in st else [st['point']]
+
+
+def is_array(st):
+    return 'points' in st
 
 
 # part C: the same histories against pycalphad on the databases shipped with kawin's tests
@@ -344,32 +372,71 @@ def real_raw(c):
         unsort = np.argsort(np.argsort(th.elements[:-1]))
         raw = []
         for k in range(len(c['xs'])):
-            d = _computeSingleMobility(th, np.array(point_x(c, k), dtype=np.float64), c['T'], unsort, None)
-            raw.append(([str(n) for n in d.phases], [[float(v) for v in r] for r in np.array(d.mobility)], [float(f) for f in d.phase_fractions]))
+            d = _computeSingleMobility(th, np.array(point_x(c, k), dtype=np.float64), pt_T(c, k), unsort, None)
+            raw.append(([str(n) for n in d.phases], [[float(v) for v in r] for r in np.array(d.mobility)],
+                        [float(f) for f in d.phase_fractions], [float(m) for m in np.atleast_1d(d.chemical_potentials)]))
         c['_raw'] = raw
         c['points'] = [{'stable': [{'name': n} for n in r[0]]} for r in raw]
     return c['_raw']
+
+
+def gen_steps(rng, db, npts, same_x, modes_p, max_excl):
+    """history of evaluations: single points, arrays of points (consecutive entries that share the
+    composition at different temperatures, repeated (x, T) pairs, flat segments of a profile with a
+    temperature gradient, one composition broadcast over an array of temperatures) and
+    computeMobility calls on arrays.  same_x(a, b): do points a and b share the composition?"""
+    steps = []
+    for _ in range(int(rng.integers(2, 6))):
+        if steps and rng.random() < 0.25:
+            steps.append(copy.deepcopy(steps[int(rng.integers(0, len(steps)))]))
+            continue
+        mode = str(rng.choice(['none', 'predefined', 'majority', 'exclude'], p=modes_p))
+        args = None
+        if mode == 'predefined':
+            args = str(rng.choice(db))
+        elif mode == 'exclude':
+            args = [str(x) for x in rng.choice(db, int(rng.integers(1, max_excl + 1)), replace=False)]
+        st = {'rule': int(rng.integers(0, 5)), 'n': pick_factor(rng), 'mode': mode, 'args': args}
+        if rng.random() < 0.4:
+            n = int(rng.integers(2, 5))
+            pts = [int(x) for x in rng.integers(0, npts, n)]
+            if rng.random() < 0.6:
+                # a profile: nodes of equal composition next to each other (flat segments), the
+                # temperature varies along each segment
+                pts.sort(key=lambda k: (min(j for j in range(npts) if same_x(j, k)), k))
+            if rng.random() < 0.3:
+                pts.insert(int(rng.integers(0, len(pts))) + 1, pts[int(rng.integers(0, len(pts)))])   # repeated (x, T)
+            st['points'] = pts
+            if all(same_x(pts[0], k) for k in pts) and rng.random() < 0.5:
+                st['broadcast'] = True          # one composition, array of temperatures
+            if rng.random() < 0.15:
+                st['kind'] = 'mobility'         # computeMobility on the same array
+        else:
+            st['point'] = int(rng.integers(0, npts))
+        steps.append(st)
+    return steps
 
 
 def gen_C(rng, quick):
     tdb = str(rng.choice(['NICRAL_TDB', 'FECRNI_DB']))
     elements = ['NI', 'CR', 'AL'] if tdb == 'NICRAL_TDB' else ['FE', 'CR', 'NI']
     db = [str(x) for x in rng.permutation(['FCC_A1', 'BCC_A2'])]
-    npts = int(rng.integers(1, 4))
-    xs = []
-    for _ in range(npts):
+    nx = int(rng.integers(1, 3))
+    comps = []
+    for _ in range(nx):
         a = float(np.round(rng.uniform(0.03, 0.72), 3))
         b = float(np.round(rng.uniform(0.02, min(0.3, 0.95 - a)), 3))
-        xs.append([a, b])
-    steps = []
-    for _ in range(int(rng.integers(2, 6))):
-        if steps and rng.random() < 0.3:
-            steps.append(copy.deepcopy(steps[int(rng.integers(0, len(steps)))]))
-            continue
-        mode = str(rng.choice(['none', 'predefined', 'majority', 'exclude'], p=[0.15, 0.35, 0.2, 0.3]))
-        args = str(rng.choice(db)) if mode == 'predefined' else ([str(rng.choice(db))] if mode == 'exclude' else None)
-        steps.append({'rule': int(rng.integers(0, 5)), 'n': pick_factor(rng), 'mode': mode, 'args': args, 'point': int(rng.integers(0, npts))})
-    c = {'part': 'C', 'tdb': tdb, 'elements': elements, 'db': db, 'xs': xs, 'T': float(rng.choice([1073.0, 1173.0, 1273.0])), 'steps': steps}
+        comps.append([a, b])
+    # points = (composition, temperature) pairs, some compositions at several temperatures
+    pairs = []
+    for _ in range(int(rng.integers(1, 5))):
+        pr = (int(rng.integers(0, nx)), float(rng.choice([1073.0, 1173.0, 1273.0])))
+        if pr not in pairs:
+            pairs.append(pr)
+    xs = [comps[i] for i, _ in pairs]
+    Ts = [t for _, t in pairs]
+    steps = gen_steps(rng, db, len(pairs), lambda a, b: pairs[a][0] == pairs[b][0], [0.25, 0.3, 0.2, 0.25], 1)
+    c = {'part': 'C', 'tdb': tdb, 'elements': elements, 'db': db, 'xs': xs, 'Ts': Ts, 'steps': steps}
     real_raw(c)
     return c
 
@@ -381,9 +448,14 @@ def gen_B(rng, quick):
     elements = [str(x) for x in rng.choice(ELEMENTS, e, replace=False)]
     nmob = int(rng.integers(1, ndb + 1))
     with_mob = [str(x) for x in rng.choice(db, nmob, replace=False)]
-    npts = int(rng.integers(1, 4))
+    nx = int(rng.integers(1, 4))
+    pairs = []
+    for _ in range(int(rng.integers(1, 5))):
+        pr = (int(rng.integers(0, nx)), float(rng.choice([900.0, 1000.0, 1100.0, 1200.0])))
+        if pr not in pairs:
+            pairs.append(pr)
     points = []
-    for _ in range(npts):
+    for (xi, T) in pairs:
         p = int(rng.choice([1, 2, 3, 4], p=[0.25, 0.35, 0.25, 0.15]))
         p = min(p, ndb + 1)
         names = [str(x) for x in rng.choice(db, min(p, ndb), replace=False)]
@@ -400,28 +472,15 @@ def gen_B(rng, quick):
             X = {el: float(kk) / 16 for el, kk in zip(elements, k)}
             raw = {el: float(10 ** rng.uniform(-22, -16)) for el in elements} if nm in with_mob else None
             stable.append({'name': nm, 'NP': float(f), 'X': X, 'raw': raw})
-        points.append({'stable': stable})
-    steps = []
-    nsteps = int(rng.integers(2, 7))
-    for _ in range(nsteps):
-        if steps and rng.random() < 0.3:
-            steps.append(copy.deepcopy(steps[int(rng.integers(0, len(steps)))]))
-            continue
-        mode = str(rng.choice(['none', 'predefined', 'majority', 'exclude'], p=[0.2, 0.3, 0.2, 0.3]))
-        args = None
-        if mode == 'predefined':
-            args = str(rng.choice(db))
-        elif mode == 'exclude':
-            args = [str(x) for x in rng.choice(db, int(rng.integers(1, min(3, ndb) + 1)), replace=False)]
-        steps.append({'rule': int(rng.integers(0, 5)), 'n': pick_factor(rng), 'mode': mode, 'args': args,
-                      'point': int(rng.integers(0, npts))})
+        points.append({'xi': xi, 'T': T, 'stable': stable})
+    steps = gen_steps(rng, db, len(points), lambda a, b: pairs[a][0] == pairs[b][0], [0.3, 0.25, 0.2, 0.25], min(3, ndb))
     return {'part': 'B', 'db': db, 'elements': elements, 'with_mobility': with_mob, 'points': points, 'steps': steps}
 
 
 def raw_data(c, k):
     """what _computeSingleMobility has to produce for point k: names, (p, e) rows in the order of
-    therm.elements, fractions; computed here from the script (mobility * u-fraction, -1 rows for
-    phases without a mobility model)"""
+    therm.elements, fractions, chemical potentials; computed here from the script (mobility *
+    u-fraction, -1 rows for phases without a mobility model)"""
     if c['part'] == 'C':
         return real_raw(c)[k]
     pt = c['points'][k]
@@ -434,7 +493,10 @@ def raw_data(c, k):
         else:
             usum = float(np.sum([s['X'][el] for el in sorted(c['elements'])]))
             rows.append([float(np.float64(s['raw'][el]) * (np.float64(s['X'][el]) / usum)) for el in c['elements']])
-    return names, rows, fr
+    srt = sorted(c['elements'])
+    mu_sorted = fake_mu(pt_xi(c, k), pt_T(c, k), len(srt))
+    mu = [mu_sorted[srt.index(el)] for el in c['elements']]
+    return names, rows, fr, mu
 
 
 def make_params(step):
@@ -445,36 +507,95 @@ def make_params(step):
                                     postProcessFunction=step['mode'], postProcessArgs=step['args'])
 
 
-def call_impl(therm, c, step, table):
+def call_args(c, st, pts):
+    """(x, T) as the caller passes them: a single point, an (N, e-1) array with an (N,) array of
+    temperatures, or one composition with an array of temperatures"""
+    if not is_array(st) and len(pts) == 1:
+        return point_x(c, pts[0]), pt_T(c, pts[0])
+    Ts = np.array([pt_T(c, k) for k in pts], dtype=np.float64)
+    if st.get('broadcast'):
+        return point_x(c, pts[0]), Ts
+    return np.array([point_x(c, k) for k in pts], dtype=np.float64), Ts
+
+
+def call_impl(therm, c, step, table, pts=None):
+    """returns (per-entry averaged mobilities, per-entry chemical potentials, error); pts overrides
+    the points of the step (single-point re-evaluation of one entry)"""
     from kawin.diffusion.HomogenizationParameters import computeHomogenizationFunction
+    single = pts is not None
+    pts = step_points(step) if pts is None else pts
+    st = step if not single else {k: v for k, v in step.items() if k not in ('points', 'broadcast')}
+    e = len(c['elements'])
     try:
+        x, T = call_args(c, st, pts)
         with np.errstate(all='ignore'):
-            avg, mu = computeHomogenizationFunction(therm, point_x(c, step['point']), c.get('T', 1000.0), make_params(step), table)
-        return np.atleast_1d(np.array(avg, dtype=np.float64)).tolist(), None
+            avg, mu = computeHomogenizationFunction(therm, x, T, make_params(step), table)
+        avg = np.array(avg, dtype=np.float64).reshape(len(pts), e)
+        mu = np.array(mu, dtype=np.float64).reshape(len(pts), e)
+        return avg.tolist(), mu.tolist(), None
+    except Exception as ex:
+        return None, None, type(ex).__name__ + ': ' + str(ex)
+
+
+def call_mobility(therm, c, step, table):
+    """computeMobility on the array of the step: per entry (names, rows, fractions, mu)"""
+    from kawin.diffusion.DiffusionParameters import computeMobility
+    pts = step_points(step)
+    try:
+        x, T = call_args(c, step, pts)
+        d = computeMobility(therm, x, T, table)
+        res = []
+        for j in range(len(pts)):
+            res.append(([str(n) for n in d.phases[j]], [[float(v) for v in r] for r in np.array(d.mobility[j])],
+                        [float(f) for f in d.phase_fractions[j]], [float(m) for m in np.atleast_1d(d.chemical_potentials[j])]))
+        if len(d.mobility) != len(pts):
+            return None, 'computeMobility returned %d entries for %d points' % (len(d.mobility), len(pts))
+        return res, None
     except Exception as ex:
         return None, type(ex).__name__ + ': ' + str(ex)
 
 
+def opt_key(st):
+    return json.dumps([st['rule'], st['n'], st['mode'], st['args']])
+
+
 def run_impl_B(c):
+    """every step on one therm object with one hash table; for every entry of every step the
+    single-point evaluation on a fresh object without table; for array steps also the array on a
+    fresh object without table"""
     from kawin.diffusion.DiffusionParameters import HashTable
     if c['part'] == 'C':
         c.pop('_raw', None)
         real_raw(c)
     therm = get_therm(c)
     table = HashTable()
-    out = {'cached': [], 'fresh': [], 'calls': None}
+    out = {'cached': [], 'fresh': [], 'fresh_array': [], 'calls': None}
+    memo = {}
     for st in c['steps']:
+        if st.get('kind') == 'mobility':
+            out['cached'].append(call_mobility(therm, c, st, table))
+            out['fresh'].append(None)
+            out['fresh_array'].append(None)
+            continue
         out['cached'].append(call_impl(therm, c, st, table))
-        out['fresh'].append(call_impl(get_therm(c), c, st, None))
+        fr = []
+        for k in step_points(st):
+            key = (opt_key(st), k)
+            if key not in memo:
+                a, m, err = call_impl(get_therm(c), c, st, None, pts=[k])
+                memo[key] = (a[0] if a is not None else None, m[0] if m is not None else None, err)
+            fr.append(memo[key])
+        out['fresh'].append(fr)
+        out['fresh_array'].append(call_impl(get_therm(c), c, st, None) if is_array(st) else None)
     out['calls'] = getattr(therm, 'calls', None)
     return out
 
 
-def expected_B(c, step):
-    """the property's reading: post-processing addressed through the NAMES of the stable phases, then
-    the averaging rule (kawin's own rule function, checked separately in part A)"""
+def expected_B(c, step, k):
+    """the property's reading: post-processing addressed through the NAMES of the stable phases of
+    point k, then the averaging rule (kawin's own rule function, checked separately in part A)"""
     _, funcs = kawin_rules()
-    names, rows, fr = raw_data(c, step['point'])
+    names, rows, fr = raw_data(c, k)[:3]
     mob = np.array(rows, dtype=np.float64)
     fr = np.array(fr, dtype=np.float64)
     src = None
@@ -511,37 +632,100 @@ def same(a, b, rtol=1e-12):
     return True
 
 
+def node_bounds(c, st, k, val):
+    """the bound rules lie between the smallest and largest phase mobility OF THAT NODE (no
+    post-processing, every stable phase with a defined mobility); returns a message or None"""
+    if st['mode'] != 'none' or st['rule'] > 3:
+        return None
+    names, rows, fr = raw_data(c, k)[:3]
+    if any(m == -1 for r in rows for m in r) or abs(sum(fr) - 1) > 1e-9:
+        return None
+    for j in range(len(rows[0])):
+        col = [r[j] for r in rows]
+        sc = col_scales(fr, col)[st['rule']]
+        if sc is None or not np.isfinite(val[j]):
+            continue
+        tol = 1e-9 * float(sc)
+        if val[j] < min(col) - tol or val[j] > max(col) + tol:
+            return 'element %d: %r outside [%r, %r], the phase mobilities at this node (x = %r, T = %r)' % (
+                j, val[j], min(col), max(col), point_x(c, k), pt_T(c, k))
+    return None
+
+
 def oracle_B(c, out):
+    """returns list of (clause, cls, step index, message)"""
     v = []
     seen = {}
     # part C: two pycalphad runs of the same point are compared (not assumed bit-identical)
     rt_exp, rt_fresh = (1e-9, 1e-9) if c['part'] == 'C' else (1e-12, 0)
     for i, st in enumerate(c['steps']):
-        exp = expected_B(c, st)
-        (cv, cerr), (fv, ferr) = out['cached'][i], out['fresh'][i]
-        p = len(c['points'][st['point']]['stable'])
-        region = 'single-phase region' if p == 1 else 'multi-phase region'
+        pts = step_points(st)
+        if st.get('kind') == 'mobility':
+            res, err = out['cached'][i]
+            if err is not None:
+                v.append(('array_entry_is_point', 'computeMobility: exception', i, 'computeMobility on points %r raised %s' % (pts, err)))
+                continue
+            for j, k in enumerate(pts):
+                names, rows, fr, mu = raw_data(c, k)
+                gn, gr, gf, gm = res[j]
+                ok = gn == names and len(gr) == len(rows) and all(same(a, b, rt_exp) for a, b in zip(gr, rows)) and same(gf, fr, rt_exp) and same(gm, mu, rt_exp)
+                if not ok:
+                    v.append(('array_entry_is_point', 'computeMobility: entry differs from the point', i,
+                              'step %d: computeMobility entry %d (x = %r, T = %r) returned phases %r, mobility %r, fractions %r; the point on its own gives %r, %r, %r'
+                              % (i, j, point_x(c, k), pt_T(c, k), gn, gr, gf, names, rows, fr)))
+                    break
+            continue
+        cv, cmu, cerr = out['cached'][i]
         what = "post-processing '%s'%s" % (st['mode'], '' if st['args'] is None else ' (%r)' % (st['args'],))
-        stable = [s['name'] for s in c['points'][st['point']]['stable']]
-        if ferr is not None:
-            v.append(('postprocess_by_name', "%s: exception" % st['mode'], i,
-                      '%s raised %s in a %s (database phases %r, stable phases %r)' % (what, ferr, region, c['db'], stable)))
-        elif not same(fv, exp, rt_exp):
-            v.append(('postprocess_by_name', "%s: wrong phase" % st['mode'], i,
-                      '%s on stable phases %r (database order %r): got %r, the option applied to the named (majority) phase gives %r' % (what, stable, c['db'], fv, exp)))
-        elif cerr is not None or not same(cv, fv, rt_fresh):
-            v.append(('evaluation_history_independent', 'cached arrays modified', i,
-                      'step %d (%s, rule %s) with the hash table on returned %r, a cache-free evaluation of the same point returns %r'
-                      % (i, what, RULES[st['rule']], cv if cerr is None else cerr, fv)))
-        key = json.dumps(st, sort_keys=True)
-        if key in seen and cerr is None and seen[key][1] is None and not same(cv, seen[key][0], 0):
-            v.append(('same_point_twice', 'different answer', i,
-                      'step %d repeats an earlier evaluation (%s) and returned %r instead of %r' % (i, what, cv, seen[key][0])))
-        seen.setdefault(key, (cv, cerr))
+        arr = out['fresh_array'][i]
+        for j, k in enumerate(pts):
+            exp = expected_B(c, st, k)
+            fv, fmu, ferr = out['fresh'][i][j]
+            stable = [s['name'] for s in c['points'][k]['stable']]
+            region = 'single-phase region' if len(stable) == 1 else 'multi-phase region'
+            where = 'x = %r, T = %r' % (point_x(c, k), pt_T(c, k))
+            if ferr is not None:
+                v.append(('postprocess_by_name', "%s: exception" % st['mode'], i,
+                          '%s raised %s in a %s (database phases %r, stable phases %r)' % (what, ferr, region, c['db'], stable)))
+                continue
+            if not same(fv, exp, rt_exp):
+                v.append(('postprocess_by_name', "%s: wrong phase" % st['mode'], i,
+                          '%s on stable phases %r (database order %r): got %r, the option applied to the named (majority) phase gives %r' % (what, stable, c['db'], fv, exp)))
+                continue
+            # bounds from the phase mobilities of this node, for what the caller received
+            if cerr is None:
+                msg = node_bounds(c, st, k, cv[j])
+                if msg is not None:
+                    v.append(('within_min_max', RULES[st['rule']] + ' at a node', i, 'step %d entry %d, %s: %s' % (i, j, RULES[st['rule']], msg)))
+            if arr is not None:
+                av, amu, aerr = arr
+                if aerr is not None:
+                    v.append(('array_entry_is_point', 'array call: exception', i,
+                              'step %d: the call with the array of points %r raised %s while entry %d evaluates on its own' % (i, pts, aerr, j)))
+                    break
+                if not same(av[j], fv, rt_fresh):
+                    v.append(('array_entry_is_point', 'entry differs from the single-point evaluation', i,
+                              'step %d (%s, rule %s): entry %d of the array call (%s; points %r, temperatures %r) is %r, the same point evaluated on its own gives %r'
+                              % (i, what, RULES[st['rule']], j, where, [point_x(c, q) for q in pts], [pt_T(c, q) for q in pts], av[j], fv)))
+                    break
+                if not same(amu[j], fmu, rt_fresh):
+                    v.append(('array_entry_is_point', 'chemical potential differs from the single-point evaluation', i,
+                              'step %d: chemical potentials of entry %d of the array call (%s) are %r, the same point on its own gives %r' % (i, j, where, amu[j], fmu)))
+                    break
+            if cerr is not None or not same(cv[j], fv, rt_fresh) or not same(cmu[j], fmu, rt_fresh):
+                v.append(('evaluation_history_independent', 'cached arrays modified', i,
+                          'step %d (%s, rule %s) with the hash table on returned %r at %s, a cache-free evaluation of the same point returns %r'
+                          % (i, what, RULES[st['rule']], (cv[j], cmu[j]) if cerr is None else cerr, where, (fv, fmu))))
+                break
+            key = (opt_key(st), k)
+            if key in seen and not same(cv[j], seen[key], 0):
+                v.append(('same_point_twice', 'different answer', i,
+                          'step %d entry %d repeats an earlier evaluation of %s (%s) and returned %r instead of %r' % (i, j, where, what, cv[j], seen[key])))
+            seen.setdefault(key, cv[j])
     return v
 
 
-def opts_term(c, st, out_fr):
+def opts_term(c, st, k):
     mode = st['mode']
     if mode == 'none':
         post = 'PNone'
@@ -552,86 +736,130 @@ def opts_term(c, st, out_fr):
     else:
         post = '(PExclude [%s])' % '; '.join(natlit(POOL.index(a)) for a in st['args'])
     if st['rule'] == 4:
+        fr = raw_data(c, k)[2]
         with np.errstate(all='ignore'):
-            pf = np.power(np.array(out_fr, dtype=np.float64), st['n']).tolist()
-        pw = pw_term(st['n'], out_fr, pf)
+            pf = np.power(np.array(fr, dtype=np.float64), st['n']).tolist()
+        pw = pw_term(st['n'], fr, pf)
     else:
         pw = '(fun f => f)'
-    return '(mkO %s %s %s, %s)' % (RULES[st['rule']], post, pw, natlit(st['point']))
+    return '(mkO %s %s %s, %s)' % (RULES[st['rule']], post, pw, natlit(k))
+
+
+def flat_entries(c, out):
+    """the loop of computeHomogenizationFunction evaluates the entries of an array one after the
+    other through the same hash table: for the model an array step is the sequence of its entries"""
+    ent = []
+    for i, st in enumerate(c['steps']):
+        if st.get('kind') == 'mobility':
+            continue
+        cv, cmu, cerr = out['cached'][i]
+        for j, k in enumerate(step_points(st)):
+            ent.append((i, j, k, st, None if cerr is not None else cv[j], cerr))
+    return ent
 
 
 def model_term_B(c, out):
     tbl = []
     for k in range(len(c['points'])):
-        names, rows, fr = raw_data(c, k)
+        names, rows, fr = raw_data(c, k)[:3]
         tbl.append('(mkD [%s] %s %s)' % ('; '.join(natlit(POOL.index(n)) for n in names), qlistlist(rows), qlist(fr)))
-    hist = [opts_term(c, st, raw_data(c, st['point'])[2]) for st in c['steps']]
-    impl = []
-    for (cv, cerr) in out['cached']:
-        impl.append('None' if cerr is not None else '(Some %s)' % qlist(fin(cv)))
+    ent = flat_entries(c, out)
+    hist = [opts_term(c, st, k) for (_, _, k, st, _, _) in ent]
+    impl = ['None' if cerr is not None else '(Some %s)' % qlist(fin(val)) for (_, _, _, _, val, cerr) in ent]
     return 'check17b %s %s %s %s [%s] [%s] [%s]' % (RT, 'tinyB', 'maxfB', natlit(len(c['elements'])),
                                                    '; '.join(tbl), '; '.join(hist), '; '.join(impl))
 
 
 def compare_B(c, out, mod):
     dis, ndeg = [], 0
-    for i, (st, (cv, cerr), (deg, raised, verdict)) in enumerate(zip(c['steps'], out['cached'], mod)):
+    for (i, j, k, st, val, cerr), (deg, raised, verdict) in zip(flat_entries(c, out), mod):
+        tag = 'step %d%s (%s/%s)' % (i, ' entry %d' % j if is_array(st) else '', RULES[st['rule']], st['mode'])
         if cerr is not None:
-            dis.append('step %d (%s/%s): implementation raised %s' % (i, RULES[st['rule']], st['mode'], cerr))
+            if j == 0:
+                dis.append('%s: implementation raised %s' % (tag, cerr))
             continue
         if deg:
             ndeg += 1
             continue
-        if not np.all(np.isfinite(cv)):
-            dis.append('step %d (%s/%s): implementation returned %r' % (i, RULES[st['rule']], st['mode'], cv))
+        if not np.all(np.isfinite(val)):
+            dis.append('%s: implementation returned %r' % (tag, val))
         elif verdict is not None:
-            k, ap = verdict[1]
-            dis.append('step %d (%s/%s) element %d: implementation %r, model %r' % (i, RULES[st['rule']], st['mode'], k, cv[k] if k < len(cv) else None, float(tofrac(ap))))
-    nkeys = len(set(st['point'] for st in c['steps']))
+            q, ap = verdict[1]
+            dis.append('%s element %d: implementation %r, model %r' % (tag, q, val[q] if q < len(val) else None, float(tofrac(ap))))
+    nkeys = len(set(k for st in c['steps'] for k in step_points(st)))
     if out['calls'] is not None and out['calls'] != nkeys:
         dis.append('equilibrium computed %d times for %d distinct points with the hash table on' % (out['calls'], nkeys))
     return dis, ndeg
 
 
+def same_comp(c, a, b):
+    return point_x(c, a) == point_x(c, b)
+
+
 def nontrivial_B(c):
     """some step addresses a phase by name whose database position differs from its position among
-    the stable phases (or which is not stable), or a point is evaluated more than once"""
-    pts = [st['point'] for st in c['steps']]
+    the stable phases (or which is not stable), or a point is evaluated more than once, or an array
+    holds neighbouring entries of equal composition and different temperature"""
+    pts = [k for st in c['steps'] for k in step_points(st)]
     if len(pts) != len(set(pts)):
         return True
     for st in c['steps']:
-        stable = [s['name'] for s in c['points'][st['point']]['stable']]
-        named = [st['args']] if st['mode'] == 'predefined' else (st['args'] if st['mode'] == 'exclude' else [])
-        for a in named:
-            if a not in stable or stable.index(a) != c['db'].index(a):
+        sp = step_points(st)
+        for a, b in zip(sp[:-1], sp[1:]):
+            if a != b and same_comp(c, a, b):
                 return True
+        for k in sp:
+            stable = [s['name'] for s in c['points'][k]['stable']]
+            named = [st['args']] if st['mode'] == 'predefined' else (st['args'] if st['mode'] == 'exclude' else [])
+            for a in named:
+                if a not in stable or stable.index(a) != c['db'].index(a):
+                    return True
     return False
 
 
+def restrict(c, steps):
+    """the case with these steps only, unused points dropped and indices renumbered"""
+    used = sorted(set(k for s in steps for k in step_points(s)))
+    ren = {k: i for i, k in enumerate(used)}
+    d = dict(c, steps=copy.deepcopy(steps))
+    d.pop('_raw', None)
+    d['points'] = [dict(c['points'][k], xi=pt_xi(c, k), T=pt_T(c, k)) if c['part'] != 'C' else c['points'][k] for k in used]
+    if c['part'] == 'C':
+        d['xs'] = [c['xs'][k] for k in used]
+        d['Ts'] = [pt_T(c, k) for k in used]
+        d.pop('T', None)
+    for s in d['steps']:
+        if 'points' in s:
+            s['points'] = [ren[k] for k in s['points']]
+        else:
+            s['point'] = ren[s['point']]
+    return d
+
+
 def shrink_B(c, clause, cls, idx):
-    """keep the failing step (and, for history clauses, the earlier steps on the same point)"""
+    """keep the failing step (for history clauses also earlier steps that touch one of its points);
+    an array step is cut down to two neighbouring entries when that still fails"""
     def fails(d):
         return any(h[0] == clause and h[1] == cls for h in oracle_B(d, run_impl_B(d)))
     st = c['steps'][idx]
+    mine = set(step_points(st))
     cands = []
-    if clause == 'postprocess_by_name':
-        cands.append([st])
-    else:
-        prev = [s for s in c['steps'][:idx] if s['point'] == st['point']]
+    if is_array(st) and st.get('kind') != 'mobility':
+        pts = step_points(st)
+        for a in range(len(pts) - 1):
+            s2 = dict(st, points=[pts[a], pts[a + 1]])
+            if not same_comp(c, pts[a], pts[a + 1]):
+                s2.pop('broadcast', None)
+            cands.append([s2])
+    cands.append([st])
+    if clause not in ('postprocess_by_name', 'array_entry_is_point'):
+        prev = [s for s in c['steps'][:idx] if mine & set(step_points(s))]
         for s in prev:
             cands.append([s, st])
         cands.append(prev + [st])
     for steps in cands:
-        d = dict(c, steps=copy.deepcopy(steps))
-        # keep only the point that is used
-        k = steps[-1]['point']
-        d['points'] = [c['points'][k]]
-        if c['part'] == 'C':
-            d['xs'] = [c['xs'][k]]
-            d.pop('_raw', None)
-        for s in d['steps']:
-            s['point'] = 0
         try:
+            d = restrict(c, steps)
             if fails(d):
                 return d
         except Exception:
@@ -693,7 +921,10 @@ def explore(ctx, cases, label):
             for st in c['steps']:
                 ctx.hist('post', st['mode'])
                 ctx.hist('rule', RULES[st['rule']])
-                ctx.hist('stable_phases', len(c['points'][st['point']]['stable']))
+                ctx.hist('call', 'computeMobility(array)' if st.get('kind') == 'mobility' else
+                         'one composition, array of T' if st.get('broadcast') else 'array of points' if is_array(st) else 'single point')
+                for k in step_points(st):
+                    ctx.hist('stable_phases', len(c['points'][k]['stable']))
             ctx.cov['traces_validated_against_impl'] += 1
             dis, ndeg = compare_B(c, out, mods[i])
             for h in oracle_B(c, out):
@@ -732,14 +963,14 @@ def run(ctx):
                        'labyrinth factor 1, 2, 1.5, 3 or random in [1, 2.5], each also evaluated with the phases permuted; non-trivial '
                        'when a fully defined column has two different mobilities and two positive fractions. part B: scripted '
                        'thermodynamics (2-5 database phases, 1-4 stable composition sets per point in an order unrelated to the database '
-                       'order, phases without mobility model), histories of 2-6 computeHomogenizationFunction calls with one hash table, '
+                       'order, phases without mobility model), histories of 2-5 computeHomogenizationFunction calls with one hash table, '
                        'all rules and post-processing modes, repeated steps; non-trivial when a named phase sits at a different position '
-                       'among the stable phases than in the database (or is not stable) or a point is evaluated twice. part C: the same histories against pycalphad on the Ni-Cr-Al and Fe-Cr-Ni databases of kawin\'s tests (both orders of the phase list, random compositions, T = 1073/1173/1273 K; the backend data shipped to the model come from a cache-free _computeSingleMobility call). distinct by hash of the exact input')
+                       'among the stable phases than in the database (or is not stable) or a point is evaluated twice or an array holds neighbouring entries of equal composition and different temperature. A point is a (composition, temperature) pair, compositions occur at several temperatures; 40 % of the steps pass ARRAYS of 2-5 points (flat segments of a profile with a temperature gradient, repeated (x, T) pairs, one composition broadcast over an array of temperatures, computeMobility on the array); every entry is compared with the single-point evaluation on a fresh object, with the same array on a fresh object, and with the [min, max] of the own phase mobilities of that node. part C: the same histories against pycalphad on the Ni-Cr-Al and Fe-Cr-Ni databases of kawin\'s tests (both orders of the phase list, random compositions, T = 1073/1173/1273 K; the backend data shipped to the model come from a cache-free _computeSingleMobility call). distinct by hash of the exact input')
     t0 = time.time()
     axioms, failed = ctx.prove(['C17/Properties.v'])
     ctx.notes.setdefault('timing_s', {})['prove'] = round(time.time() - t0, 1)
     t0 = time.time()
-    nA, nB, nC = (260, 160, 40) if quick else (4000, 2500, 600)
+    nA, nB, nC = (260, 120, 30) if quick else (4000, 2000, 500)
     cases = corpus_cases()
     cases += [gen_A(ctx.rng, quick) for _ in range(nA)] + [gen_B(ctx.rng, quick) for _ in range(nB)] + [gen_C(ctx.rng, quick) for _ in range(nC)]
     ctx.notes['timing_s']['generate'] = round(time.time() - t0, 1)
